@@ -46,7 +46,7 @@ def main():
             i += 1
     src = "/tmp/seed/%s" % pid
     if not ks:
-        ks = [k for k in (1, 2, 3) if os.path.exists("%s/change%d.diff" % (src, k))]
+        ks = [k for k in (1, 2, 3) if os.path.exists("%s/change%d.diff" % (src, k)) or os.path.exists("/verif/seeded/%s-%d/patch.diff" % (pid, k))]
     if checks is None:
         comp = {}
         for line in open("/verif/tools/companions.txt"):
@@ -57,6 +57,9 @@ def main():
         patch = "%s/change%d.diff" % (src, k)
         demo = "%s/demo%d.py" % (src, k)
         notes = "%s/notes%d.md" % (src, k)
+        filed = "/verif/seeded/%s-%d" % (pid, k)
+        if not os.path.exists(patch):  # scratch worktree already removed: use the filed copy
+            patch, demo, notes = filed + "/patch.diff", filed + "/demo.py", filed + "/notes.md"
         M = "/dev/shm/traph-seeded-%s-%d-%d" % (pid, k, os.getpid())
         OUT = M + "-out"
         meta = {"property": pid, "k": k, "ran": []}
@@ -97,10 +100,12 @@ def main():
             meta["caught_by"] = [c for c, r in results.items() if r["exit"] == 1]
             dst = "/verif/seeded/%s-%d" % (pid, k)
             os.makedirs(dst, exist_ok=True)
-            shutil.copy(patch, dst + "/patch.diff")
-            shutil.copy(demo, dst + "/demo.py")
+            if os.path.dirname(patch) != dst:
+                shutil.copy(patch, dst + "/patch.diff")
+                shutil.copy(demo, dst + "/demo.py")
+                if os.path.exists(notes):
+                    shutil.copy(notes, dst + "/notes.md")
             if os.path.exists(notes):
-                shutil.copy(notes, dst + "/notes.md")
                 meta["needs_to_manifest"] = open(notes).read().strip()[:1500]
             meta["source"] = "independent sub-agent given only the property text and a scratch worktree"
             json.dump(meta, open(dst + "/meta.json", "w"), indent=1)
